@@ -508,6 +508,10 @@ class WsLink:
             t.cancel()
 
 
+# link kinds for workloads that never cut the link: half of the runs on the repository's websocket transport glue
+ANY_LINK = ('bytes', 'messages', 'bytes', 'messages', 'ws', 'aiohttp', 'quart', 'channels')
+
+
 def make_link(kind, rng, knobs_c=None, knobs_s=None):
     if kind in ('aiohttp', 'quart', 'channels'):
         from .gluelinks import GlueLink
